@@ -106,11 +106,14 @@ func (g *genState) pickAcct(usableOnly bool) *AcctInfo {
 }
 
 func (g *genState) addrFor(a *AcctInfo) Addr {
-	switch g.rng.Intn(10) {
+	switch g.rng.Intn(11) {
 	case 0, 1, 2, 3:
 		return Addr{Name: a.Path()}
 	case 4, 5, 6, 7:
 		return Addr{Key: a.Key, KeyID: a.ID, HasKey: true}
+	case 10:
+		// the key followed by extra bytes: resolves to the same account
+		return Addr{Key: a.Key, KeyID: a.ID, HasKey: true, Pad: [][]byte{{0xaa}, {0xde, 0xad}, {0}}[g.rng.Intn(3)]}
 	default:
 		return Addr{Name: a.Path(), Key: a.Key, KeyID: a.ID, HasKey: true}
 	}
